@@ -74,6 +74,17 @@ var (
 
 func scratchDir() string {
 	scratchOnce.Do(func() {
+		// remove scratch directories left behind by killed runs (owner pid no longer alive)
+		if olds, _ := filepath.Glob("/dev/shm/verif-kvseq-*"); len(olds) > 0 {
+			for _, o := range olds {
+				var pid int
+				if _, err := fmt.Sscanf(filepath.Base(o), "verif-kvseq-%d", &pid); err == nil && pid > 0 {
+					if _, err := os.Stat(fmt.Sprintf("/proc/%d", pid)); os.IsNotExist(err) {
+						os.RemoveAll(o)
+					}
+				}
+			}
+		}
 		scratchRoot = fmt.Sprintf("/dev/shm/verif-kvseq-%d", os.Getpid())
 		os.RemoveAll(scratchRoot)
 		if err := os.MkdirAll(scratchRoot, 0o755); err != nil {
